@@ -31,9 +31,10 @@ def norm(node) -> str:
 
 
 class Module:
-    def __init__(self, name: str, path: Path):
+    def __init__(self, name: str, path: Path, repo=None, canonicalise=True):
         self.name = name
         self.path = path
+        self.repo = repo
         self.src = path.read_text(encoding="utf-8")
         self.tree = ast.parse(self.src, filename=str(path))
         self.funcs: dict[str, ast.FunctionDef] = {}
@@ -43,7 +44,8 @@ class Module:
         self.assigns: dict[str, list[ast.stmt]] = {}
         self._index()
         self.raw_funcs = self.funcs
-        self._canonicalise()
+        if canonicalise:
+            self._canonicalise()
 
     def _index(self):
         for n in ast.walk(self.tree):
@@ -185,11 +187,40 @@ class Repo:
             if not p.is_file():
                 raise AnalysisError(f"anchor vanished: module {name} ({p})")
             try:
-                self._mods[name] = Module(name, p)
+                self._mods[name] = Module(name, p, repo=self)
             except SyntaxError as e:
                 raise AnalysisError(f"module {name} does not parse: {e}")
             self.units_parsed += 1
         return self._mods[name]
+
+    def raw_mod(self, name: str):
+        """The module as written (functions not canonicalised); used to look up helpers that live in a sibling module."""
+        cache = self.__dict__.setdefault("_raw_mods", {})
+        if name not in cache:
+            p = self.pkg / (name + ".py")
+            if not p.is_file():
+                return None
+            try:
+                cache[name] = Module(name, p, repo=self, canonicalise=False)
+            except SyntaxError:
+                return None
+        return cache[name]
+
+    def new_methods(self):
+        """{method name: [function]} of the methods of the hand-written modules that are not in the frozen table of core functions."""
+        idx = self.__dict__.get("_new_methods")
+        if idx is None:
+            from .corefuncs import CORE_FUNCS
+            idx = {}
+            for mn, core in CORE_FUNCS.items():
+                m = self.raw_mod(mn)
+                if m is None:
+                    continue
+                for q, f in m.raw_funcs.items():
+                    if getattr(f, "cls", None) is not None and q not in core and isinstance(f, ast.FunctionDef) and q.count(".") == 1:
+                        idx.setdefault(f.name, []).append(f)
+            self.__dict__["_new_methods"] = idx
+        return idx
 
     def has_mod(self, name: str) -> bool:
         return (self.pkg / (name + ".py")).is_file()
